@@ -274,7 +274,14 @@ def main(tier, seed):
                 oracle_fail += 1
                 res.violation("%s: %s" % ({"L": "LOGICAL", "B": "BOOLEAN", "E": "ENUMERATION"}[kind], msg),
                               {"kind": kind, "input": d, "impl": io[k], "replay": "echo '%s %s' | %s" % (kind, hexs(d), exe)})
-            if k < len(mo) and io[k].split() != mo[k].split():
+            # the writer: the item's name between dots, in upper case; $ for no value
+            wtxt = (io[k].split() + ["?"] * 8)[7]
+            if msg is None and m and m.group(1).upper() in LEGAL[kind] and ia[0] == 1 and ia[2] == 3:
+                if wtxt != ".%s." % m.group(1).upper():
+                    oracle_fail += 1
+                    res.violation("%s: the value read from %r is written as %s" % ({"L": "LOGICAL", "B": "BOOLEAN", "E": "ENUMERATION"}[kind], d, wtxt),
+                                  {"kind": kind, "input": d, "impl": io[k], "replay": "echo '%s %s' | %s" % (kind, hexs(d), exe)})
+            if k < len(mo) and io[k].split()[:7] != mo[k].split()[:7]:
                 disagreements += 1
                 if disagreements <= 5:
                     res.violation("model P21Enum.v and ReadEnum disagree on %r: impl %r model %r" % (d, io[k], mo[k] if k < len(mo) else None),
